@@ -37,9 +37,29 @@ def _real(root, path):
     return root + path if path != '/' else root
 
 
+def _inside(root, path, depth=0):
+    """the real location of the sandbox path `path` with every symbolic link in a DIRECTORY component resolved inside the sandbox:
+    an absolute link target is re-rooted under `root` (outside the chroot the kernel would resolve it against the host's root, and a
+    generated tree must never be able to write there)"""
+    comps = [c for c in path.split('/') if c not in ('', '.')]
+    cur = ''
+    for i, c in enumerate(comps):
+        if c == '..':
+            cur = cur.rsplit('/', 1)[0]
+            continue
+        nxt = cur + '/' + c
+        rn = os.fsencode(root + nxt)
+        if i < len(comps) - 1 and os.path.islink(rn) and depth < 20:
+            tgt = os.fsdecode(os.readlink(rn))
+            base = tgt if tgt.startswith('/') else cur + '/' + tgt
+            return _inside(root, base + '/' + '/'.join(comps[i + 1:]), depth + 1)
+        cur = nxt
+    return root + cur if cur else root
+
+
 def _build_one(root, ent, i, later):
         kind, path = ent[0], ent[1]
-        rp = os.fsencode(_real(root, path))
+        rp = os.fsencode(_inside(root, path))
         if kind == 'd':
             if os.path.lexists(rp) and not os.path.isdir(rp):
                 return
@@ -195,6 +215,11 @@ class Shim:
                 try:
                     if op[0] == 'chmod':
                         self.orig['os.chmod'](op[1], op[2])
+                    elif op[0] == 'remove':           # somebody else deletes a file / an (empty) directory / a link
+                        try:
+                            self.orig['os.unlink'](op[1])
+                        except OSError:
+                            shutil.rmtree(op[1], ignore_errors=True)
                     elif op[0] == 'to_link':          # replace a directory by a symbolic link to where it was moved
                         self.orig['os.rename'](op[1], op[2])
                         self.orig['os.symlink'](op[2], op[1])
